@@ -72,6 +72,7 @@ pub mod c19;
 pub mod pairs;
 pub mod edges;
 pub mod lattice;
+pub mod ok;
 
 pub fn all() -> Vec<Prog> {
     let mut v = Vec::new();
@@ -90,5 +91,6 @@ pub fn all() -> Vec<Prog> {
     v.extend(pairs::all());
     v.extend(edges::all());
     v.extend(lattice::all());
+    v.extend(ok::all());
     v
 }
